@@ -14,7 +14,8 @@ RULE = ("A zoo transform (forward or inverse direction) or a flow's log_prob ove
         "finite; for the inputs, the context, each of up to 4 parameter tensors and all parameters jointly, a drawn direction d: "
         "<grad, d> equals the central difference (s(+hd)-s(-hd))/2h, h=1e-6, cross-checked at h/2 (disagreement of the two step "
         "sizes = kink -> inconclusive); a tensor whose finite difference is non-zero must not get a None/zero gradient; a second "
-        "forward+backward succeeds. Non-trivial: some parameter tensor has a non-zero directional derivative.")
+        "forward+backward succeeds. Also: s built from sample_and_log_prob(2, context) under a fixed RNG state (reparameterised draws), and "
+        "every target optionally after one ordinary training step (training-mode forward on inputs with autograd history + backward). Non-trivial: some parameter tensor has a non-zero directional derivative.")
 ASSUMPTIONS = ["UMNN gradients are quadrature-approximate (Clenshaw-Curtis with 20 nodes; tolerance 5e-2 relative)", "kinks (ReLU-type conditioners, knots of the linear "
                "spline) are detected by step-size disagreement and skipped"]
 EXPLANATION = "generated"
@@ -30,7 +31,8 @@ def _case(draw):
     c = draw(zoo.transform_case({"regimes": ["fresh", "small", "moderate"], "smooth": smooth, "umnn": draw(st.integers(0, 15)) == 0,
                                  "flat_max": 5}))
     c["mode"] = draw(st.sampled_from(["eval", "train"]))
-    c["target"] = draw(st.sampled_from(["forward", "forward", "inverse", "log_prob"]))
+    c["target"] = draw(st.sampled_from(["forward", "forward", "inverse", "log_prob", "sample"]))
+    c["pre"] = draw(st.sampled_from([None, None, "train_step"]))     # an ordinary training step (forward + backward in training mode) first
     c["n"] = draw(st.integers(2, 3))
     c["seed"] = draw(st.integers(0, 10 ** 6))
     c["zeros"] = draw(st.booleans())
@@ -83,12 +85,14 @@ def run_case(case):
         C = zoo.gen_context(b, ctxk, n, case["seed"]) if ctxk is not None else None
         target = case["target"]
         flat = len(b.out_shape) == 1
-        if target == "log_prob" and (not flat or len(b.in_shape) != 1):
+        if target in ("log_prob", "sample") and (not flat or len(b.in_shape) != 1):
             target = "forward"
+        if target == "sample" and (not b.invertible or b.inv_via_forward or b.umnn):
+            target = "log_prob"
         if target == "inverse" and (not b.invertible or b.inv_via_forward):
             target = "forward"
         obj = m
-        if target == "log_prob":
+        if target in ("log_prob", "sample"):
             D = b.out_shape[0]
             base = dist.ConditionalDiagonalNormal([D], context_encoder=torch.nn.Linear(ctxk, 2 * D)) if (ctxk is not None and case["seed"] % 2) \
                 else dist.StandardNormal([D])
@@ -100,6 +104,26 @@ def run_case(case):
         if not zoo.chain_moderate(b, X, C, case["spec"]):
             res.inconclusive += 1
             return res
+        if case.get("pre") == "train_step":
+            # what every training loop does before anyone evaluates: a training-mode forward on inputs that carry autograd history,
+            # and a backward (parameters are left alone; data-dependent initialisation / running statistics may move)
+            obj.train(True)
+            try:
+                Xp = X.clone().requires_grad_(True) * 1.0
+                Cp = (C.clone().requires_grad_(True) * 1.0) if C is not None else None
+                if target in ("log_prob", "sample"):
+                    sp_ = obj.log_prob(Xp, Cp).sum()
+                else:
+                    o_, l_ = m(Xp, Cp)
+                    sp_ = o_.sum() + l_.sum()
+                if bool(torch.isfinite(sp_)):
+                    sp_.backward()
+            except Exception:
+                res.inconclusive += 1
+                return res
+            obj.zero_grad()
+            obj.train(train)
+            res.labels.append("after_train_step")
         if target == "inverse":
             with torch.no_grad():
                 try:
@@ -113,7 +137,7 @@ def run_case(case):
         if train:
             with torch.no_grad():   # warm-up: data-dependent initialisation (ActNorm) happens once, before the function is fixed
                 try:
-                    (obj.log_prob(X, C) if target == "log_prob" else (m.inverse(X, C) if target == "inverse" else m(X, C)))
+                    (obj.log_prob(X, C) if target in ("log_prob", "sample") else (m.inverse(X, C) if target == "inverse" else m(X, C)))
                 except Exception:
                     res.inconclusive += 1
                     return res
@@ -123,6 +147,15 @@ def run_case(case):
             nonlocal r, q
             if target == "log_prob":
                 return obj.log_prob(Xv, Cv).sum()
+            if target == "sample":
+                # reparameterised draws: under a fixed RNG state the samples and their log-probabilities are smooth functions of the
+                # context and of every parameter (base, encoder, transform)
+                torch.manual_seed(case["seed"] + 9)
+                smp, lp_ = obj.sample_and_log_prob(2, Cv)
+                if r is None:
+                    r = torch.randn(smp.shape, generator=g)
+                    q = torch.randn(lp_.shape, generator=g)
+                return (r * smp).sum() + (q * lp_).sum()
             out, ld = (m.inverse(Xv, Cv) if target == "inverse" else m(Xv, Cv))
             if r is None:
                 r = torch.randn(out.shape, generator=g)
@@ -135,13 +168,15 @@ def run_case(case):
         try:
             s = s_of(Xr, Cr)
         except Exception as e:
-            if type(e).__name__ == "InputOutsideDomain":
+            if type(e).__name__ in ("InputOutsideDomain", "InverseNotAvailable"):    # (batch norm offers no inverse in training mode)
                 res.inconclusive += 1
                 return res
             raise
         if not bool(torch.isfinite(s)):
             res.inconclusive += 1
             return res
+        if not s.requires_grad:
+            return res      # sampling from a parameter-free flow without context: nothing to differentiate
         tens = [Xr] + ([Cr] if Cr is not None else []) + [p for _, p in params]
         names = ["inputs"] + (["context"] if Cr is not None else []) + [nm for nm, _ in params]
         try:
